@@ -3,7 +3,7 @@ ALL = ["C%02d" % i for i in range(1, 37)]
 
 BASELINE_OFF = ("cd /repo && GOFLAGS=-mod=mod GOPROXY=off GOSUMDB=off GOTOOLCHAIN=local "
                 "go test -json -vet=off -count=1 -timeout 25m ./...")
-HOOK_COMMITS = ["d9bd3981", "91affb0d", "895625aa", "a0f266b2", "acb6a1da", "2c5176d9"]
+HOOK_COMMITS = ["d9bd3981", "91affb0d", "895625aa", "a0f266b2", "acb6a1da", "2c5176d9", "91558341"]
 
 NOTES = ("Every check: TLC design check of the TLA+ module, then TLC-generated behaviours replayed against /repo's "
          "working tree (harness rebuilt on every run with -tags verif) and/or recorded traces validated by TLC. "
@@ -21,6 +21,42 @@ _MC = ("TLC explores the bounded %s specification exhaustively (design check of 
        "real bio-rd objects with the complete projected state compared after each step")
 
 CHECKS = {
+    "C31": {
+        "text": "ISISAdj models one system's point-to-point adjacencies on a discrete clock (per neighbour: absent/Init/Up/Down, seconds "
+                "of silence, holding time, seconds Down, content of the last three-way TLV; the set of neighbours in the local LSP) with "
+                "the actions Hello(n, lists, hold), Tick(k) and RegenerateLSP. TLC checks exhaustively (2 neighbours, 4 TLV contents, small "
+                "timers): Up only while the last hello lists this system and circuit and only within its holding time; Up -> Down on an "
+                "unlisting hello; a silent neighbour is absent after hold + retention + 2 s whatever state it was in; the regenerated LSP "
+                "lists exactly the Up neighbours; liveness (every neighbour eventually gone for good once the hellos stop) under fairness "
+                "of the clock. Every emitted behaviour (one witness per transition + seeded simulation, holding times 0..30 s, silences "
+                "up to 121 s) is replayed against a real isis/server.Server: hellos with the four TLV contents injected on the ethernet "
+                "seam, mock clock advanced second by second, GetAdjacencies (state, remaining holding time, seconds Down) compared after "
+                "every step and at every second at which the spec changes a state, the local LSP's IS reachability after RegenerateLSP; "
+                "one neighbour, two neighbours on two circuits, two neighbours on one circuit.",
+        "note": "Trusted: TLC; the harness's implementations of the repository's ethernet and device interfaces; the verif accessor "
+                "(constants, regeneration trigger, pending ticks). neighborDownTimeoutS is read from the source and cross-checked. The "
+                "first hello of an unknown neighbour only creates it (bound to the code; the property only forbids Up without a listing "
+                "hello). Hellos the server sends are not compared (C33).",
+        "technique": "TLA+ spec ISISAdj + TLC exhaustive check (safety, liveness under fairness); behaviour replay against isis/server through the ethernet/device/clock seams",
+    },
+    "C32": {
+        "text": "ISISLSDB models the level-2 database per ISO 10589 7.3.15-7.3.17 on two point-to-point circuits (per LSP ID: sequence "
+                "number, remaining lifetime, SRM and SSN per circuit; IDs below, equal to and above the local one) with the actions "
+                "RecvLSP (newer/same/older; copies of the local LSP), RecvCSNP (full and half ranges), RecvPSNP, Tick(k), SendLSPs, "
+                "SendPSNPs, Refresh. TLC checks: the highest received sequence number is kept until the entry ages out and never "
+                "decreases; the local LSP is always present with lifetime >= 1 (refresh before expiry), never below a received copy and "
+                "strictly above every copy that was newer; a regenerated local LSP is flooded on every circuit; no SRM without an LSP. "
+                "Every emitted behaviour (one witness per transition + seeded simulation, aging steps up to and across the refresh of "
+                "the local LSP) is replayed against the LSDB of a real isis/server.Server with two Up adjacencies: PDUs built with the "
+                "repository's serialisers go in through the ethernet seam (Decode, processPkt, validatePkt), aging and transmission "
+                "rounds are triggered one at a time; after every step GetLSDB and the SRM/SSN flags are compared, after "
+                "SendLSPs/SendPSNPs the PDUs on the wire.",
+        "note": "Trusted: TLC; the harness's ethernet/device implementations; the verif accessor (flags, one aging tick, one transmission "
+                "round, regeneration trigger, sequence counter). defaultLifetimeSeconds / lspRefreshThresholdSeconds are read from the "
+                "source and cross-checked; the property only asks for a refresh before expiry. Not generated: purges (zero remaining "
+                "lifetime), LSP fragments other than 0, CSNP transmission, checksum validation.",
+        "technique": "TLA+ spec ISISLSDB + TLC exhaustive check; behaviour replay against isis/server's LSDB through the ethernet seam and a verif accessor",
+    },
     "C24": {
         "text": _MC % "Collision" + " (invariants AtMostOneEstablished, AtMostOneBeyondOpenSent, RoutesOnlyFromEstablished; action "
                 "properties LoserIsTold: the closed connection's last message is a Cease NOTIFICATION, EstablishedSurvives). One peer "
